@@ -296,11 +296,15 @@ def apply(spec, module, lines):
                     # only meaningful if the recording goes on to a point where the loss is observable
                     tail = [_etype(evs[k]) for k in range(j + 1, n)]
                     stop = tail.index("Reset") if "Reset" in tail else len(tail)
+                    if mod == "DiodeContractTrace" and evs[_rec_range(evs, i)[0]].get("noalert"):
+                        continue        # no alerter, no accounting: a lost delivery is not observable in such a recording
+                    if mod == "DiodeContractTrace" and "DStart" in tail[:stop]:
+                        continue        # a later delivery out of order is rejected at that DStart, which C10 owns: take the LAST delivery
                     if mod == "DiodeContractTrace" and not ("CloseRet" in tail[:stop] and "Alert" not in [_etype(evs[k]) for k in _rec_range(evs, i)] and "Collision" not in [_etype(evs[k]) for k in _rec_range(evs, i)]):
                         continue
                     out = evs[:i] + evs[i + 1:j] + evs[j + 1:]
                     dropped = [i, j]
-                    what = {"dropped": [evs[i], evs[j]], "line": i + 1}
+                    what = {"dropped": [evs[i], evs[j]], "line": i + 1, "recording": [evs[k] for k in _rec_range(evs, i)] if os.environ.get("VERIF_SELFTEST_DEBUG") else None}
                     break
     else:
         for i in order:
